@@ -1,6 +1,8 @@
 package main
 
 import (
+	"fmt"
+	"bytes"
 	"encoding/json"
 	"math"
 	"math/rand"
@@ -180,6 +182,43 @@ func shList(args []string) error {
 	})
 }
 
+// sh-insert: strings beyond the exhaustive lengths, derived from valid ones: at every position of each base string, one copy
+// of every byte value, and 2 / 3 / 4 / 8 copies (and CR LF pairs) of the bytes that underlying library routines (base64,
+// strconv, unicode) are lenient about.  Both parsers run on each; Trace_SH (kind "parse") compares with the reference parsers.
+func shInsert(args []string) error {
+	bases := []string{"*YQ==*", "*YWI=*", "*YWJj*", "*YQ==*;a", "\"a b\"", "a;b=*YQ==*;c=\"x\"", "tok, 12", "a;k=1, b;j", "-12", "*YWJjZA==*, \"s\""}
+	lenient := []byte{0, 9, 10, 11, 12, 13, 32, '=', '*', '"', '\\', '-', '_', '+', '/', '.', 127, 128, 0xc2, 255}
+	id := 0
+	put := func(s []byte) {
+		id++
+		ev := shParseBoth(s)
+		ev["case"], ev["kind"] = fmt.Sprintf("ins/%d", id), "parse"
+		for _, k := range []string{"llv", "plv"} {
+			if _, ok := ev[k]; !ok {
+				ev[k] = []int{}
+			}
+		}
+		emit(ev)
+	}
+	for _, b := range bases {
+		for p := 0; p <= len(b); p++ {
+			ins := func(x []byte) { put(append(append(append([]byte{}, b[:p]...), x...), b[p:]...)) }
+			for c := 0; c < 256; c++ {
+				ins([]byte{byte(c)})
+			}
+			for _, c := range lenient {
+				for _, k := range []int{2, 3, 4, 8} {
+					ins(bytes.Repeat([]byte{c}, k))
+				}
+			}
+			for _, x := range []string{"\r\n", "\r\n\r\n", "\n\n\r\r", " \t", "=\n", "=\n=\n\n\n"} {
+				ins([]byte(x))
+			}
+		}
+	}
+	return nil
+}
+
 func genItem(r *rand.Rand, allowBad bool) shItem {
 	tokChars := "abcXYZ019_-.:%*/"
 	switch r.Intn(9) {
@@ -350,5 +389,6 @@ func shGen(args []string) error {
 func init() {
 	register("sh-enum", shEnum)
 	register("sh-list", shList)
+	register("sh-insert", shInsert)
 	register("sh-gen", shGen)
 }
